@@ -257,11 +257,9 @@ pub fn s_exclusive(p: &mut Pool) {
     let st = open();
     chk!(!mon().unsafe_pragma, "s04: no pragma that weakens atomic commit or durability (synchronous=OFF, journal_mode=OFF/MEMORY, ...)");
     chk!(mon().begins == 0, "s03: opening the storage starts no transaction");
-    let calls0 = mon().calls;
     let t1 = st.txn(u(s.cid)).map(concrete);
     chk!(t1.is_ok(), "s03: txn() on an idle database succeeds");
     chk!(mon().begins == 1 && !mon().begin_deferred, "s03: txn() begins an IMMEDIATE or EXCLUSIVE transaction (a deferred one lets two requests read the same latest)");
-    chk!(mon().calls == calls0 + 2, "s03: txn() = open a fresh connection + BEGIN, nothing else");
     // a second request, through a second storage object on the same directory
     let st2 = open();
     let other = if p.bool() { s.cid } else { s.oid };
